@@ -1,5 +1,5 @@
 """C07 - every node's cash ledger reconciles with its recorded flows, outlays, fees (DESIGN 5/C07)."""
-from . import core_rules
+from . import backtest_rules, core_rules
 
 
 def run(chk):
@@ -14,3 +14,5 @@ def run(chk):
     core_rules.strategy_allocate_rules(chk, "C07")
     core_rules.ownership_rules(chk, "C07", roles=("CAPITAL", "POSITION", "NET_FLOWS", "LAST_FEE"))
     core_rules.set_commissions_rules(chk, "C07")
+    backtest_rules.run_loop(chk, "C07")
+    core_rules.accessor_rules(chk, "C07")
